@@ -99,17 +99,17 @@ var _ time.Time // lemmas below name package time
 //@   allocates
 
 //@ func (*ServerCookie).Encode
-//@   requires c != nil && len(c.S2C) <= 65535 && len(c.C2S) <= 65535
+//@   requires c != nil
 //@   allocates
 //@   ensures length: len(result) == 14+len(c.S2C)+len(c.C2S) && fresh(result)
-//@   ensures wire: wire3(result, len(result), 257, 513, 769) && w16(result, 4) == int(c.Algo) && w16(result, 8) == len(c.S2C) && w16(result, 12+len(c.S2C)) == len(c.C2S)
+//@   ensures wire: len(c.S2C) <= 65535 && len(c.C2S) <= 65535 ==> wire3(result, len(result), 257, 513, 769) && w16(result, 4) == int(c.Algo) && w16(result, 8) == len(c.S2C) && w16(result, 12+len(c.S2C)) == len(c.C2S)
 //@   ensures values: forall(q, 0, len(c.S2C), result[10+q] == c.S2C[q]) && forall(q, 0, len(c.C2S), result[14+len(c.S2C)+q] == c.C2S[q])
 
 //@ func (*EncryptedServerCookie).Encode
-//@   requires c != nil && len(c.Nonce) <= 65535 && len(c.Ciphertext) <= 65535
+//@   requires c != nil
 //@   allocates
 //@   ensures length: len(result) == 14+len(c.Nonce)+len(c.Ciphertext) && fresh(result)
-//@   ensures wire: wire3(result, len(result), 1025, 1281, 1537) && w16(result, 4) == int(c.ID) && w16(result, 8) == len(c.Nonce) && w16(result, 12+len(c.Nonce)) == len(c.Ciphertext)
+//@   ensures wire: len(c.Nonce) <= 65535 && len(c.Ciphertext) <= 65535 ==> wire3(result, len(result), 1025, 1281, 1537) && w16(result, 4) == int(c.ID) && w16(result, 8) == len(c.Nonce) && w16(result, 12+len(c.Nonce)) == len(c.Ciphertext)
 //@   ensures values: forall(q, 0, len(c.Nonce), result[10+q] == c.Nonce[q]) && forall(q, 0, len(c.Ciphertext), result[14+len(c.Nonce)+q] == c.Ciphertext[q])
 
 // Round trips through the real encoders and decoders, into a destination with arbitrary previous contents, for
@@ -127,7 +127,7 @@ var _ time.Time // lemmas below name package time
 //@   ensures roundtrip: result == nil && q.ID == c.ID && len(q.Nonce) == len(c.Nonce) && len(q.Ciphertext) == len(c.Ciphertext) && forall(i, 0, len(c.Nonce), q.Nonce[i] == c.Nonce[i]) && forall(i, 0, len(c.Ciphertext), q.Ciphertext[i] == c.Ciphertext[i])
 
 //@ func (*ServerCookie).EncryptWithNonce
-//@   requires c != nil && len(c.S2C) <= 65535 && len(c.C2S) <= 65535
+//@   requires c != nil
 //@   allocates
 //@   ensures shape: result1 == nil ==> len(result0.Nonce) == 16 && len(result0.Ciphertext) == 30+len(c.S2C)+len(c.C2S) && mathint(result0.ID) == floormod(mathint(keyid), 65536)
 
